@@ -265,7 +265,7 @@ theorem loop_fits (hs : SCAN_SLACK = 1) {p : Path} : ∀ (ids : List Ident) (st 
     (∀ i ∈ ids, ∃ e, getField st.entries i p.flatten = some e ∧ (e.field.isFixed = true ∨ e.field.startAt = none)) →
     (assignLoopP true p.flatten ids st a).2 = none ∧
     ∀ e' ∈ (assignLoopP true p.flatten ids st a).1.entries, e' ∈ st.entries ∨
-      (∃ l s, e'.field.length = some l ∧ e'.field.startAt = some s ∧
+      (e'.path = p ∧ ∃ l s, e'.field.length = some l ∧ e'.field.startAt = some s ∧
         s + l ≤ m + (ids.map (wOf st.entries p.flatten)).sum) := by
   intro ids
   induction ids with
@@ -284,9 +284,9 @@ theorem loop_fits (hs : SCAN_SLACK = 1) {p : Path} : ∀ (ids : List Ident) (st 
     · simp only [hfix, if_true]
       obtain ⟨h1, h2⟩ := ih st a m hinv hcov hrest_nodes hb (by omega) hrest_pre
       refine ⟨h1, fun e' he' => ?_⟩
-      rcases h2 e' he' with h | ⟨l, s, hl, hs', hle⟩
+      rcases h2 e' he' with h | ⟨hp', l, s, hl, hs', hle⟩
       · exact Or.inl h
-      · exact Or.inr ⟨l, s, hl, hs', by omega⟩
+      · exact Or.inr ⟨hp', l, s, hl, hs', by omega⟩
     · have hnone : e.field.startAt = none := hstate.resolve_left hfix
       simp only [hfix, Bool.true_or, if_true, Bool.false_eq_true, if_false]
       obtain ⟨b, hff, hbm⟩ := firstFit_bounded hs hb (by omega : m + e.field.chosenLen ≤ st.length)
@@ -316,10 +316,16 @@ theorem loop_fits (hs : SCAN_SLACK = 1) {p : Path} : ∀ (ids : List Ident) (st 
         (fun j hj => hshape p j (hrest_nodes j hj)) (bounded_or hb hbm)
         (by rw [hmap]; show _ ≤ st.length; omega) hpre'
       refine ⟨h1, fun e' he' => ?_⟩
-      rcases h2 e' he' with h | ⟨l, s, hl, hs', hle⟩
+      rcases h2 e' he' with h | ⟨hp', l, s, hl, hs', hle⟩
       · rcases mem_modifyFirst h with h0 | ⟨y, hy, hpy, rfl⟩
         · exact Or.inl h0
-        · exact Or.inr ⟨e.field.chosenLen, b, rfl, rfl, by omega⟩
-      · exact Or.inr ⟨l, s, hl, hs', by rw [hmap] at hle; omega⟩
+        · right
+          obtain ⟨y0, hy0, hy0p, hy0i⟩ := hnodes i List.mem_cons_self
+          simp only [Bool.and_eq_true, beq_iff_eq] at hpy
+          have hreq0 : y0.reqs = p.flatten := by simp [Entry.reqs, hy0p]
+          have : y = y0 := reqs_of_enabled_same_ident hinv.unique hy hy0 (hinv.selfc y0 hy0)
+            (hpy.1.trans hy0i.symm) (hreq0 ▸ hpy.2)
+          exact ⟨by rw [upd_path, this, hy0p], e.field.chosenLen, b, rfl, rfl, by omega⟩
+      · exact Or.inr ⟨hp', l, s, hl, hs', by rw [hmap] at hle; omega⟩
 
 end Rig.C08
